@@ -40,6 +40,11 @@ type Half struct {
 
 type CarryV struct{ A, B *Wide }
 
+type hArg struct {
+	P *poly.Poly
+	K uint
+}
+
 type HiShl struct {
 	W *Wide
 	K uint
@@ -62,6 +67,7 @@ type LimbDom struct {
 	TrackPoly bool
 	nextWide  int
 	sums      map[[2]int]*Wide
+	hArgs     map[string]hArg // carry symbols: name -> (argument polynomial, shift)
 	prog      *load.Program
 	// Prims: in-repo functions given a summary instead of being interpreted
 	Prims map[string]func(in *Interp, site ssa.Instruction, args []Val) []Val
@@ -84,13 +90,15 @@ func (d *LimbDom) Sym(name string, lo, hi *big.Int) *LV {
 	return v
 }
 
-func (d *LimbDom) lift(v Val) *LV {
+func (d *LimbDom) lift(v Val) *LV { return d.liftS(v, false) }
+
+func (d *LimbDom) liftS(v Val, signed bool) *LV {
 	switch x := v.(type) {
 	case *LV:
 		return x
 	case Int:
 		u := x.V
-		if u.Sign() < 0 {
+		if u.Sign() < 0 && !signed {
 			u = new(big.Int).Add(u, two64)
 		}
 		lv := &LV{Lo: u, Hi: u}
@@ -139,7 +147,32 @@ func (d *LimbDom) shrPoly(p *poly.Poly, k uint, hi *big.Int) *poly.Poly {
 	if c, ok := p.IsConst(); ok {
 		return d.R.Const(new(big.Int).Rsh(c, k))
 	}
-	return d.R.Var(fmt.Sprintf("h%d(%s)", k, p.Key()))
+	name := fmt.Sprintf("h%d(%s)", k, p.Key())
+	if d.hArgs == nil {
+		d.hArgs = map[string]hArg{}
+	}
+	d.hArgs[name] = hArg{P: p, K: k}
+	return d.R.Var(name)
+}
+
+// centeredRemainder recognises a − 2^s·⌊(a+r)/2^s⌋ = ((a+r) mod 2^s) − r ∈ [−r, 2^s−1−r].
+func (d *LimbDom) centeredRemainder(a, b *LV) (lo, hi *big.Int, ok bool) {
+	if a.P == nil || b.P == nil || b.P.NumTerms() != 1 {
+		return nil, nil, false
+	}
+	vs := b.P.Vars()
+	if len(vs) != 1 {
+		return nil, nil, false
+	}
+	h, known := d.hArgs[vs[0]]
+	if !known || !b.P.Equal(d.R.Var(vs[0]).Scale(pow2(h.K))) {
+		return nil, nil, false
+	}
+	r, isC := h.P.Sub(a.P).IsConst()
+	if !isC || r.Sign() < 0 || r.Cmp(pow2(h.K)) >= 0 {
+		return nil, nil, false
+	}
+	return new(big.Int).Neg(r), new(big.Int).Sub(new(big.Int).Sub(pow2(h.K), big.NewInt(1)), r), true
 }
 
 func (d *LimbDom) BinOp(in *Interp, op token.Token, x, y Val, xt types.Type, pos ssa.Instruction) Val {
@@ -177,14 +210,27 @@ func (d *LimbDom) BinOp(in *Interp, op token.Token, x, y Val, xt types.Type, pos
 			}
 		}
 	}
-	a, b := d.lift(x), d.lift(y)
+	_, signed, _ := intInfo(xt, in.WordBits)
+	a, b := d.liftS(x, signed), d.liftS(y, signed)
 	if a == nil || b == nil {
 		in.Undecided(pos, "limb domain has no transfer function for %T %s %T", x, op, y)
 	}
 	bits := bitsOf(xt, in)
 	lim := pow2(bits)
+	minV := big.NewInt(0)
+	if signed {
+		lim = pow2(bits - 1)
+		minV = new(big.Int).Neg(lim)
+	}
 	fits := func(hi *big.Int) bool { return hi.Cmp(lim) < 0 }
-	top := func() Val { return d.mk(big.NewInt(0), new(big.Int).Sub(lim, big.NewInt(1)), nil) }
+	top := func() Val { return d.mk(new(big.Int).Set(minV), new(big.Int).Sub(lim, big.NewInt(1)), nil) }
+	if signed && (a.Lo.Sign() < 0 || b.Lo.Sign() < 0) {
+		switch op {
+		case token.ADD, token.SUB, token.SHR, token.EQL, token.NEQ, token.LSS, token.LEQ, token.GTR, token.GEQ:
+		default:
+			in.Undecided(pos, "limb domain: %s on possibly negative operands", op)
+		}
+	}
 	polyOp := func(f func(p, q *poly.Poly) *poly.Poly) *poly.Poly {
 		if a.P == nil || b.P == nil {
 			return nil
@@ -194,7 +240,7 @@ func (d *LimbDom) BinOp(in *Interp, op token.Token, x, y Val, xt types.Type, pos
 	switch op {
 	case token.ADD:
 		hi := new(big.Int).Add(a.Hi, b.Hi)
-		ok := fits(hi)
+		ok := fits(hi) && new(big.Int).Add(a.Lo, b.Lo).Cmp(minV) >= 0
 		in.Oblige("no-overflow(+)", pos, ok, "%s + %s ≤ %s must be < 2^%d", a.Hi, b.Hi, hi, bits)
 		if !ok {
 			return top()
@@ -202,12 +248,21 @@ func (d *LimbDom) BinOp(in *Interp, op token.Token, x, y Val, xt types.Type, pos
 		return d.mk(new(big.Int).Add(a.Lo, b.Lo), hi, polyOp(func(p, q *poly.Poly) *poly.Poly { return p.Add(q) }))
 	case token.SUB:
 		lo := new(big.Int).Sub(a.Lo, b.Hi)
-		ok := lo.Sign() >= 0
-		in.Oblige("no-underflow(-)", pos, ok, "minuend ≥ %s, subtrahend ≤ %s: difference ≥ %s must be ≥ 0", a.Lo, b.Hi, lo)
+		hi := new(big.Int).Sub(a.Hi, b.Lo)
+		if clo, chi, isCR := d.centeredRemainder(a, b); isCR {
+			if clo.Cmp(lo) > 0 {
+				lo = clo
+			}
+			if chi.Cmp(hi) < 0 {
+				hi = chi
+			}
+		}
+		ok := lo.Cmp(minV) >= 0 && fits(hi)
+		in.Oblige("no-underflow(-)", pos, ok, "minuend ≥ %s, subtrahend ≤ %s: difference ≥ %s must be ≥ %s", a.Lo, b.Hi, lo, minV)
 		if !ok {
 			return top()
 		}
-		return d.mk(lo, new(big.Int).Sub(a.Hi, b.Lo), polyOp(func(p, q *poly.Poly) *poly.Poly { return p.Sub(q) }))
+		return d.mk(lo, hi, polyOp(func(p, q *poly.Poly) *poly.Poly { return p.Sub(q) }))
 	case token.MUL:
 		hi := new(big.Int).Mul(a.Hi, b.Hi)
 		ok := fits(hi)
@@ -248,7 +303,11 @@ func (d *LimbDom) BinOp(in *Interp, op token.Token, x, y Val, xt types.Type, pos
 			return d.mk(big.NewInt(0), a.Hi, nil)
 		}
 		s := uint(k.V.Uint64())
-		return d.mk(new(big.Int).Rsh(a.Lo, s), new(big.Int).Rsh(a.Hi, s), d.shrPoly(a.P, s, a.Hi))
+		hiForSym := a.Hi
+		if a.Lo.Sign() < 0 {
+			hiForSym = pow2(s) // ⌊negative/2^s⌋ is not 0: keep the carry symbol
+		}
+		return d.mk(new(big.Int).Rsh(a.Lo, s), new(big.Int).Rsh(a.Hi, s), d.shrPoly(a.P, s, hiForSym))
 	case token.AND:
 		if m, ok := y.(Int); ok {
 			return d.andConst(a, m.V, bits)
@@ -426,14 +485,19 @@ func (d *LimbDom) Convert(in *Interp, x Val, from, to types.Type, pos ssa.Instru
 	if lv == nil {
 		in.Undecided(pos, "limb domain cannot convert %T", x)
 	}
-	bits, _, ok := intInfo(to, in.WordBits)
+	bits, sgn, ok := intInfo(to, in.WordBits)
 	if !ok {
 		in.Undecided(pos, "conversion to %s", to)
 	}
-	if lv.Hi.Cmp(pow2(uint(bits))) < 0 {
+	lo, hi := big.NewInt(0), new(big.Int).Sub(pow2(uint(bits)), big.NewInt(1))
+	if sgn {
+		hi = new(big.Int).Sub(pow2(uint(bits-1)), big.NewInt(1))
+		lo = new(big.Int).Neg(pow2(uint(bits - 1)))
+	}
+	if lv.Hi.Cmp(hi) <= 0 && lv.Lo.Cmp(lo) >= 0 {
 		return lv
 	}
-	return d.mk(big.NewInt(0), new(big.Int).Sub(pow2(uint(bits)), big.NewInt(1)), nil)
+	return d.mk(lo, hi, nil)
 }
 
 func (d *LimbDom) Branch(in *Interp, cond Val, site *ssa.If) (bool, bool, bool) {
